@@ -99,5 +99,18 @@ def run(eng, p):
             conds.append(sorted(got.extra_attr()) == sorted(ref.extra_attr()))
         eng.prove(F.and_(conds), "a mass-created agent differs from the individually built agent with the same arguments",
                   detail=kind)
+        # agents created without route / hosting tables: each must own its tables, like individually built ones (editing the
+        # tables of one agent through its public properties must not change the costs of the others)
+        plain = create_agents("a", idx, default_route=dr, default_hosting_costs=dh)
+        keys = list(plain)
+        if len(keys) >= 2:
+            first, others = plain[keys[0]], [plain[k] for k in keys[1:]]
+            first.hosting_costs["c1"] = dh + 1
+            first.routes["zz"] = dr + 1
+            conds = []
+            for o in others:
+                conds += [_same(o.hosting_cost("c1"), dh), _same(o.route("zz"), dr)]
+            eng.prove(F.and_(conds), "mass-created agents share their route / hosting tables (editing one agent changed another)",
+                      detail=kind)
     except Exception as e:
         eng.fail("exception %s: %s" % (type(e).__name__, e), detail=traceback.format_exc(limit=-4))
